@@ -1084,8 +1084,11 @@ protected:         // More utilities
         result.constant_term(
               er.constant_term() * el.constant_term());
       }
-      result.GetQPTerms().add(er.GetQPTerms());
-      result.GetQPTerms() *= el.constant_term();
+      {                    // scale er's quadratic terms only:
+        auto qt2 = er.GetQPTerms();       // result may already hold
+        qt2 *= el.constant_term();        // el's terms times er's constant
+        result.GetQPTerms().add(qt2);
+      }
     }
     const auto& ae1 = el.GetLinTerms();
     const auto& ae2 = er.GetLinTerms();
